@@ -302,6 +302,20 @@ ADDED["C02"] = (" Added: interpolated expressions must go through the converter 
 ADDED["C08"] = " Added: function_access must look at the exceptions a resolved method declares (known finding: raises of methods are never checked at their call sites)."
 ADDED["C20"] = " Added: a nullable member of a generic argument only counts as a subtype when the other argument admits None (violated on the pinned tree, repaired)."
 ADDED["C01"] = " Added: interpolated expressions keep their Mamba meaning (known finding, as C02: `{a ^ 2}` is emitted as xor)."
+ROUND9 = {
+    "C05": " Round 9: the recorded parameter (ClassArgument / GenericFunctionArg::try_from) has has_default exactly when the declaration carries a default, with its own "
+           "mutable / vararg flags and name; every operand of a range or slice gets `Int >= operand` and is generated in the incoming environment (violated on the "
+           "pinned tree: a Float / Int? bound was accepted; repaired); known finding: the constructor call behind `raise` is never generated.",
+    "C04": " Round 9: range / slice operands are Ints and all visited; the assigned-field kernels of C09 (a field that stays the class-level None) are decided here too.",
+    "C06": " Round 9: the per-member nullable test is replayed with a partly nullable union receiver; in `with r as a[: T]` the resource-alias link is added on every "
+           "path and the resource is never equated with Any (violated on the pinned tree: `with f() as y: Int` passed whatever f returns; repaired).",
+    "C09": " Round 9: the value of `target := value` is generated before the target counts as assigned, and a lambda body is generated in use mode (both violated on the "
+           "pinned tree - `self.z := self.z + 1` as first assignment, `\\x: Int => x + zz` - and repaired); every operand of a range / slice is visited.",
+    "C16": " Round 9: the Import arm of the printer reproduces the user's line - `as` exactly when there are aliases, however many - on the printer's text templates, replayed through the pipeline.",
+    "C17": " Round 9: every TypeDef / TypeAlias node parse_type_def builds carries the parsed parent (inheritance of abstract types starts there); vararg class arguments are replayed from Python.",
+}
+for _k, _v in ROUND9.items():
+    ADDED[_k] = ADDED.get(_k, "") + _v
 for _k, _v in ADDED.items():
     CHECKS[_k]["text"] += _v
 
